@@ -56,20 +56,85 @@ def tree_hash():
 
 
 def _prune_cache(keep):
+    """keep the cache bounded: tree indexes are tiny; per-TU fact files are capped at ~1.2 GB (oldest first)."""
     try:
-        ents = [e for e in os.listdir(CACHE) if e != keep and not e.endswith(".lock")]
+        ents = [e for e in os.listdir(CACHE) if e not in (keep, "tu") and not e.endswith(".lock")]
     except OSError:
         return
     ents = sorted(ents, key=lambda e: os.path.getmtime(os.path.join(CACHE, e)))
-    while len(ents) > 6:
-        shutil.rmtree(os.path.join(CACHE, ents.pop(0)), ignore_errors=True)
+    while len(ents) > 40:
+        e = ents.pop(0)
+        shutil.rmtree(os.path.join(CACHE, e), ignore_errors=True)
+        try:
+            os.unlink(os.path.join(CACHE, e + ".lock"))
+        except OSError:
+            pass
+    tudir = os.path.join(CACHE, "tu")
+    try:
+        fs = [os.path.join(tudir, f) for f in os.listdir(tudir)]
+    except OSError:
+        return
+    keepset = set()
+    try:
+        idx = json.load(open(os.path.join(CACHE, keep, "done.json")))["index"]
+        for c in idx.values():
+            keepset.update(c.values())
+    except Exception:
+        pass
+    fs = sorted(fs, key=os.path.getmtime)
+    total = sum(os.path.getsize(f) for f in fs)
+    for f in fs:
+        if total < 1200 * 1024 * 1024:
+            break
+        if f in keepset:
+            continue
+        total -= os.path.getsize(f)
+        os.unlink(f)
+
+
+def _hdr_hash():
+    h = hashlib.sha256()
+    for d in ("include", "cmake"):
+        for dp, dn, fn in sorted(os.walk(os.path.join(REPO, d))):
+            dn.sort()
+            for f in sorted(fn):
+                p = os.path.join(dp, f)
+                h.update(os.path.relpath(p, REPO).encode())
+                with open(p, "rb") as fh:
+                    h.update(hashlib.sha256(fh.read()).digest())
+    with open(os.path.join(REPO, "CMakeLists.txt"), "rb") as fh:
+        h.update(fh.read())
+    with open(TOOL, "rb") as fh:
+        h.update(hashlib.sha256(fh.read()).digest())
+    h.update(REPO.encode())
+    return h.hexdigest()
+
+
+def _tu_key(hh, tu, cfgname, cmd):
+    h = hashlib.sha256()
+    h.update(hh.encode())
+    h.update(cfgname.encode())
+    h.update(tu.encode())
+    # the scratch build directory name differs from run to run; it only carries generated headers
+    import re as _re
+    h.update(_re.sub(r"pomverif\.\d+", "pomverif", cmd).encode())
+    with open(tu, "rb") as fh:
+        h.update(fh.read())
+    return h.hexdigest()[:32]
 
 
 def _run_one(args):
     tu, cfgname, dbdir, outfile = args
     t0 = time.time()
-    p = subprocess.run([TOOL, "-p", dbdir, "--root", REPO + "/", "--out", outfile, tu],
+    if os.path.exists(outfile):
+        return tu, cfgname, 0, "", 0.0
+    tmp = outfile + ".tmp%d" % os.getpid()
+    p = subprocess.run([TOOL, "-p", dbdir, "--root", REPO + "/", "--out", tmp, tu],
                        stdout=subprocess.PIPE, stderr=subprocess.PIPE, text=True)
+    if p.returncode == 0:
+        os.replace(tmp, outfile)
+    elif os.path.exists(tmp):
+        os.unlink(tmp)
     return tu, cfgname, p.returncode, p.stderr[-2000:], time.time() - t0
 
 
@@ -87,7 +152,7 @@ def facts_dir(tier="quick", log=None):
         want_tests = tier == "thorough"
         if os.path.exists(marker):
             info = json.load(open(marker))
-            if info.get("tests") or not want_tests:
+            if (info.get("tests") or not want_tests) and all(os.path.exists(p) for c in info["index"].values() for p in c.values()):
                 info["cached"] = True
                 os.utime(out)
                 return out, info
@@ -114,6 +179,10 @@ def facts_dir(tier="quick", log=None):
             tests = [e for e in entries if "/src/" not in e["file"]]
             use = lib + (tests if want_tests else [])
             jobs = []
+            hh = _hdr_hash()
+            tudir = os.path.join(CACHE, "tu")
+            os.makedirs(tudir, exist_ok=True)
+            index = {}
             for cfgname, extra in (("real", ""), ("complex", " -DPOMEROL_COMPLEX_MATRIX_ELEMENTS")):
                 dbdir = os.path.join(scratch, "db_" + cfgname)
                 os.makedirs(dbdir)
@@ -126,23 +195,29 @@ def facts_dir(tier="quick", log=None):
                     e2["command"] = cmd
                     db.append(e2)
                 json.dump(db, open(os.path.join(dbdir, "compile_commands.json"), "w"))
-                os.makedirs(os.path.join(out, cfgname), exist_ok=True)
-                for e in use:
-                    rel = os.path.relpath(e["file"], REPO).replace("/", "__")
-                    jobs.append((e["file"], cfgname, dbdir, os.path.join(out, cfgname, rel + ".json")))
+                os.makedirs(out, exist_ok=True)
+                index[cfgname] = {}
+                for e, e2 in zip(use, db):
+                    rel = os.path.relpath(e["file"], REPO)
+                    tf = os.path.join(tudir, _tu_key(hh, e["file"], cfgname, e2["command"]) + ".json")
+                    index[cfgname][rel] = tf
+                    jobs.append((e["file"], cfgname, dbdir, tf))
             # biggest TUs first
             jobs.sort(key=lambda j: -os.path.getsize(j[0]))
             failed = []
+            nrun = 0
             with ThreadPoolExecutor(max_workers=min(16, os.cpu_count() or 4)) as ex:
                 for tu, cfgname, rc, err, dt in ex.map(_run_one, jobs):
                     if rc != 0:
                         failed.append((tu, cfgname, err))
+                    if dt > 0:
+                        nrun += 1
             if failed:
                 shutil.rmtree(out, ignore_errors=True)
                 raise RuntimeError("extraction failed for %d units: %s" % (len(failed), failed[:2]))
             info = {"key": key, "repo": REPO, "lib_tus": len(lib), "test_tus": len(tests) if want_tests else 0,
                     "tests": want_tests, "configs": ["real", "complex"], "extract_s": round(time.time() - t0, 1),
-                    "cached": False, "flags": lib[0]["command"].split(" -o ")[0] if lib else ""}
+                    "cached": False, "extracted_units": nrun, "index": index, "flags": lib[0]["command"].split(" -o ")[0] if lib else ""}
             json.dump(info, open(marker, "w"))
             _prune_cache(key)
             return out, info
